@@ -1020,7 +1020,12 @@ impl Entity {
                             new_field.field_type.to_string(),
                         ));
                     }
-                    if field.nullable && !new_field.nullable && new_field.default_value.is_none() {
+                    // rows written before the field existed, or while it was nullable, carry no value for it:
+                    // it can only become (or stay) "not nullable" with a default value
+                    if (field.nullable || field.default_value.is_some())
+                        && !new_field.nullable
+                        && new_field.default_value.is_none()
+                    {
                         match field.field_type {
                             FieldType::Array(_) | FieldType::Entity(_) => {}
                             _ => {
